@@ -3,8 +3,8 @@ import os
 
 from vlib import Infra, read_ndjson, write_ndjson
 
-RULE = ("direction A: TLC enumerates spec/FamC14.tla: all histories of one and two calls and the three-call histories whose first two calls share a process, over 4 source trees "
-        "(no imports; two different trees that import different files under the same relative path; std + local import with many functions) x 2 targets x how the call is made "
+RULE = ("direction A: TLC enumerates spec/FamC14.tla: all histories of one and two calls and the three-call histories whose first two calls share a process, over 11 programs "
+        "(no imports; two different trees that import different files under the same relative path; std + local import with many functions; five main files in one directory that share lib.tsh -> util.tsh - globals and top-level code - by path, one of them ill-typed; one path whose imported file is rewritten between calls in two versions) x 2 targets x how the call is made "
         "{same transpiler object, new object, new process} (thorough: also from a relocated byte-identical copy of the tree). The harness replays each history into the real "
         "library (fresh converter per call) and records (content id/target, digest); spec/Purity.tla accepts a history iff one function explains all of it. Every history runs in "
         "its own processes, which also samples Go's map-iteration seeds. Distinct = distinct history.")
@@ -25,14 +25,14 @@ def run(ctx):
     for c in ran:
         if len(c["ops"]) == 1:
             base.setdefault(c["events"][0]["key"], c["events"][0])
-    prefix = [dict(e, mode="baseline") for e in base.values()]
-    for c in ran:
-        if len(c["ops"]) > 1:
-            c["events"] = prefix + c["events"]
     # one more history: everything that any history observed, concatenated (cross-history agreement = fresh processes agree)
     allev = []
     for c in ran:
         allev += c["events"]
+    prefix = [dict(e, mode="baseline") for e in base.values()]
+    for c in ran:
+        if len(c["ops"]) > 1:
+            c["events"] = prefix + c["events"]
     ran.append({"id": "C14/all-histories-concatenated", "ops": [], "events": allev})
     slim = os.path.join(wd, "slim.ndjson")
     write_ndjson(slim, [{"id": c["id"], "events": [{"key": e["key"], "digest": e["digest"]} for e in c["events"]]} for c in ran])
